@@ -40,3 +40,19 @@ Definition set_add (s : list Z) (x : Z) : list Z := if zmem x s then s else s ++
 Definition zrange (n : Z) : list Z := map Z.of_nat (seq 0 (Z.to_nat n)).
 (* enumerate(l) *)
 Definition enumerate_z {A : Type} (l : list A) : list (Z * A) := combine (map Z.of_nat (seq 0 (length l))) l.
+
+(* [x for x in l if c(x)] whose condition may raise: conditions are evaluated left to right, the first
+   exception ends the comprehension *)
+Fixpoint res_filter {A : Type} (p : A -> result bool) (l : list A) : result (list A) :=
+  match l with
+  | [] => Ok []
+  | a :: r => dor b <- p a; dor rs <- res_filter p r; Ok (if b then a :: rs else rs)
+  end.
+
+(* `while True:` left by `break`: the body answers (go on?, state); recursion on explicit fuel.  Running out of
+   fuel is not a Python behaviour (Err 98): linking theorems are stated for sufficient fuel. *)
+Fixpoint res_while {St : Type} (fuel : nat) (body : St -> result (bool * St)) (s : St) : result St :=
+  match fuel with
+  | O => Err 98
+  | S n => dor r <- body s; if fst r then res_while n body (snd r) else Ok (snd r)
+  end.
